@@ -111,6 +111,13 @@ Section PasswordThm.
     apply String.eqb_neq in Ha, Hn, Hv. rewrite Ha, Hn, Hv. split; reflexivity.
   Qed.
 
+  (* what the hub shows about a slave's password is "set"/"" whenever the slave's own answer is *)
+  Theorem slave_doc_bit_only :
+    forall pending bit, bit = "" \/ bit = "set" -> slave_doc_pw pending bit = "" \/ slave_doc_pw pending bit = "set".
+  Proof.
+    intros [p|] bit H; simpl; [|exact H]. destruct (p =? "")%string; [now left|now right].
+  Qed.
+
   (* the hub's hash for a slave is the hash of the slave's current admin password after any forwarded changes *)
   Theorem slave_hash_tracks :
     forall sops pw0, hub_slave_hash sha256hex pw0 sops = sha256hex (slave_password pw0 sops).
